@@ -34,6 +34,28 @@ type EncodeOpts struct {
 	NonCanonical bool
 }
 
+// variantOf is another value of the same kind and, for strings and bytes, of
+// the same length.
+func variantOf(fd protoreflect.FieldDescriptor, v protoreflect.Value) protoreflect.Value {
+	switch fd.Kind() {
+	case protoreflect.BytesKind:
+		b := append([]byte{}, v.Bytes()...)
+		for i := range b {
+			b[i] ^= 0x55
+		}
+		return protoreflect.ValueOfBytes(b)
+	case protoreflect.StringKind:
+		b := []byte(v.String())
+		for i := range b {
+			if b[i] < 0x80 {
+				b[i] = 'x'
+			}
+		}
+		return protoreflect.ValueOfString(string(b))
+	}
+	return fd.Default()
+}
+
 // SplitRecords cuts a well-formed wire stream into its records.
 func SplitRecords(u []byte) [][]byte {
 	var out [][]byte
@@ -216,10 +238,12 @@ func (o *EncodeOpts) Encode(m protoreflect.Message) []byte {
 			}
 		default:
 			var r []byte
-			if o.T != nil && o.Redundant && fd.Kind() != protoreflect.MessageKind && fd.ContainingOneof() == nil && o.T.Chance("redundant-first", 1, 4) {
+			if o.T != nil && o.Redundant && fd.Kind() != protoreflect.MessageKind && o.T.Chance("redundant-first", 1, 4) {
+				// an earlier record of the same field (also of the same oneof
+				// member) with another value of the same length; the last wins
 				var d []byte
 				d = protowire.AppendTag(d, fd.Number(), wireType(fd.Kind()))
-				d = o.appendScalar(d, fd, fd.Default())
+				d = o.appendScalar(d, fd, variantOf(fd, v))
 				recs = append(recs, d)
 			}
 			r = protowire.AppendTag(r, fd.Number(), wireType(fd.Kind()))
